@@ -40,6 +40,13 @@ def evaluate(spec):
                 if pts != set(range(n_data)):
                     problems.append((dict(klass, sub="incomplete_entry"), "chain %s entry %d holds data %r of %d" % (ch, i, sorted(pts), n_data)))
                     break
+        want = spec["inputs"].get("expect_names")
+        if want is not None:
+            for ch, res in h["results"].items():
+                got = sorted(str(d.name) for d in res["data"])
+                if got != sorted(want):
+                    problems.append((dict(klass, sub="loaded_mutations"), "chain %s ran on mutations %r; the input's complete, unduplicated, non-deleted mutations are %r" % (ch, got, want)))
+                    break
         if set(h["results"].keys()) != set(range(o["num_chains"])):
             problems.append((dict(klass, sub="chains_missing"), "trace has chains %r, asked for %d" % (sorted(h["results"]), o["num_chains"])))
     for a in h["appended"]:
@@ -123,8 +130,43 @@ def widen(spec, seed):
     return spec
 
 
+def add_rows_the_loader_drops(spec, seed):
+    """Valid input files also hold rows the loader is documented to set aside: mutations with major copy number 0 in some
+    sample, mutations absent from some sample, duplicated mutation ids.  The run must complete on the rest - and load exactly
+    the rest."""
+    import random
+
+    r = random.Random(seed ^ 0xD509)
+    inp = spec["inputs"]
+    if inp.get("cluster_rows") or r.random() >= 0.2:
+        return spec
+    samples = inp["samples"]
+    keep = sorted(set(row["mutation_id"] for row in inp["rows"]))
+    tmpl = dict(inp["rows"][0])
+    extra = []
+    kinds = r.sample(["zero_cn", "partial", "duplicate"], r.randint(1, 3))
+    for kind in kinds:
+        name = "drop_%s" % kind
+        for si, s_ in enumerate(samples):
+            row = dict(tmpl, mutation_id=name, sample_id=s_)
+            if kind == "zero_cn" and si == 0:
+                row.update(major_cn=0, minor_cn=0)
+            if kind == "partial" and si == 0 and len(samples) > 1:
+                continue
+            extra.append(row)
+            if kind == "duplicate":
+                extra.append(dict(row))
+        if kind == "partial" and len(samples) == 1:
+            keep.append(name)  # with a single sample nothing is missing: an ordinary mutation
+    rows = inp["rows"] + extra
+    r.shuffle(rows)
+    inp = dict(inp, rows=rows, expect_names=sorted(set(keep)))
+    spec["inputs"] = inp
+    return spec
+
+
 def task(seed):
-    spec = widen(wp.spec_from_seed(seed, boundary=True), seed)
+    spec = add_rows_the_loader_drops(widen(wp.spec_from_seed(seed, boundary=True), seed), seed)
     # keep a single run inside the budget: the cross product is sampled, not the product of all maxima
     while cost(spec) > 20000 and not spec.get("big"):
         o = spec["options"]
